@@ -6,6 +6,10 @@ import "verifharness/common"
 var units = map[string]common.UnitFunc{
 	"c01direct": unitC01direct,
 	"c01orch":   unitC01orch,
+	"c05":       unitC05,
+	"c08":       unitC08,
+	"c18deal":   unitC18deal,
+	"c18dkg":    unitC18dkg,
 }
 
 func main() { common.ChildMain(units) }
